@@ -260,6 +260,7 @@ pub struct Env {
     pub desc: String,
     /// RecursivePageTable: recursive index and software MMU
     pub rec: Option<u16>,
+    pub rec_unchecked: bool,
     #[cfg(not(miri))]
     pub mmu: Option<Box<SoftMmu>>,
     /// page faults resolved by the software MMU during the last mapper call
@@ -287,7 +288,13 @@ macro_rules! with_mapper {
             #[cfg(not(miri))]
             Kind::Recursive => {
                 let l4 = $env.mmu.as_ref().unwrap().l4_addr();
-                let mut $m = RecursivePageTable::new(unsafe { &mut *(l4 as *mut x86_64::structures::paging::PageTable) }).expect("RecursivePageTable::new refused a recursive, active table");
+                // either the checked constructor on the reference at [R,R,R,R], or new_unchecked on another view of the
+                // active level-4 table (its contract only asks for the active table and the recursive index)
+                let mut $m = if $env.rec_unchecked {
+                    unsafe { RecursivePageTable::new_unchecked(&mut *$env.arena.root_ptr(), x86_64::structures::paging::PageTableIndex::new($env.rec.unwrap())) }
+                } else {
+                    RecursivePageTable::new(unsafe { &mut *(l4 as *mut x86_64::structures::paging::PageTable) }).expect("RecursivePageTable::new refused a recursive, active table")
+                };
                 $body
             }
             #[cfg(miri)]
@@ -322,7 +329,7 @@ impl Env {
     pub fn exec(&self, op: &Op) -> Out {
         let mut alloc = self.arena.allocator();
         crate::util::fault_means(
-            "C09",
+            self.fault_prop(),
             format!("{}|{}|fatal-fault-in-mapper-code(access-outside-simulated-physical-memory)", self.kind.name(), op.name()),
             J::obj(vec![("impl", J::s(self.kind.name())), ("env", J::s(self.desc.clone())), ("op", op.to_json()), ("history_tail", J::A(self.history[self.history.len().saturating_sub(30)..].to_vec()))]),
         );
@@ -333,10 +340,27 @@ impl Env {
             Err(msg) => Out::Panic(msg),
         }
     }
+    /// a wild dereference by the recursive mapper is, in the C20 command, a wrong recursive address; otherwise C09
+    fn fault_prop(&self) -> &'static str {
+        if self.focus.contains(&"C20") {
+            "C20"
+        } else {
+            "C09"
+        }
+    }
+    fn declare_probe_fault(&self, what: &str, va: u64) {
+        crate::util::fault_means(
+            self.fault_prop(),
+            format!("{}|{}|fatal-fault-in-mapper-code(access-outside-simulated-physical-memory)", self.kind.name(), what),
+            J::obj(vec![("impl", J::s(self.kind.name())), ("env", J::s(self.desc.clone())), ("probe_address", J::hex(va)), ("history_tail", J::A(self.history[self.history.len().saturating_sub(30)..].to_vec()))]),
+        );
+    }
     pub fn translate(&self, va: u64) -> Result<TranslateResult, String> {
+        self.declare_probe_fault("translate", va);
         self.bracket(|| catch_msg(|| with_mapper!(self, |m| m.translate(VirtAddr::new(va)))))
     }
     pub fn translate_addr(&self, va: u64) -> Result<Option<u64>, String> {
+        self.declare_probe_fault("translate_addr", va);
         self.bracket(|| catch_msg(|| with_mapper!(self, |m| m.translate_addr(VirtAddr::new(va)).map(|p| p.as_u64()))))
     }
     pub fn translate_page(&self, va: u64, lvl: u8) -> Out {
@@ -427,7 +451,8 @@ pub fn new_env(kind: Kind, r: &mut Rng, nframes: usize) -> Env {
         let root_phys = st.phys[0];
         st.write(0, ri, root_phys | P | W);
     }
-    let desc = format!("{} frames={} root={:#x} policy={:?} offset={:#x} recursive_index={:?}", kind.name(), nframes, st.phys[0], st.policy, offset, rec);
+    let rec_unchecked = kind == Kind::Recursive && r.chance(1, 3);
+    let desc = format!("{} frames={} root={:#x} policy={:?} offset={:#x} recursive_index={:?}{}", kind.name(), nframes, st.phys[0], st.policy, offset, rec, if rec_unchecked { " (new_unchecked on a non-recursive view of the level-4 table)" } else { "" });
     let _ = &mut arena;
     Env {
         kind,
@@ -438,6 +463,7 @@ pub fn new_env(kind: Kind, r: &mut Rng, nframes: usize) -> Env {
         data_frames,
         desc,
         rec,
+        rec_unchecked,
         #[cfg(not(miri))]
         mmu,
         last_pf: std::cell::RefCell::new(Vec::new()),
@@ -1122,6 +1148,11 @@ fn probe_addrs(env: &Env, op: &Op, r: &mut Rng) -> Vec<u64> {
         v.push((b + size) & 0xffff_ffff_ffff);
     }
     v.extend_from_slice(&[0, 0x7fff_ffff_ffff, 0x8000_0000_0000, 0xffff_ffff_ffff]);
+    // addresses inside the recursive region translate through the recursive entry itself; they are outside the
+    // quantifier (pages whose p4 index is the recursive index are excluded)
+    if let Some(ri) = env.rec {
+        v.retain(|&a| (a >> 39) & 0x1ff != ri as u64);
+    }
     v.iter().map(|&a| sx(a)).collect()
 }
 
